@@ -75,7 +75,7 @@ SPEC = dict(
         technique='Coq proof by exhaustive evaluation of a hand model + correspondence with the real class + keys monitor',
         design_ref='DESIGN.md section 5 (C15)'),
     stages=[stage_caps_correspondence, SP.inv_stage('keys-monitor', lambda st, ctx, g: IM.mon_runtime(st, ctx, g, want=('C15',)))],
-    theorems=['C15_keys_equal_sensors', 'C15_succeeds_by_second_call', 'C15_filter_level_invariant'],
+    theorems=['C15_read_runtime_data_is_the_model', 'C15_sensors_is_the_model', 'C15_keys_equal_sensors', 'C15_succeeds_by_second_call', 'C15_filter_level_invariant'],
     rule='ET: serial class x rated power x refused optional blocks x battery_mode x three calls (battery appearing before the third); DT models x meter; ES models',
     trusted_base=['Model/ETCaps.v (hand model of the capability bookkeeping), compared with goodwe.et.ET on every run'] + SP.TB_SENS[2:],
     exhaustive=True,
